@@ -3,19 +3,20 @@ from checks import rapid, plain, fuzz, REPLAY
 CHECK = dict(
     pkg="c08", level="exploration",
     rule="Part A (job prop): one evaluation = one generated history of 1-14 steps on ONE client and ONE layout - ImageCopy into the layout (from a model "
-         "registry or another layout; by tag / digest / as child; sparse via ImageWithPlatforms; with referrers / digest-tags / force-recursive / include-external; "
-         "source faults that make the copy fail midway or recover; Close(target) called from inside every k-th source request of the copy), hand-made pushes of a "
-         "node's closure (complete, without blobs, without children; tagged / by digest / as child), single manifest / blob puts, tag delete (plain tags and the "
-         "referrers fallback tag), manifest delete (plain, check-referrers, with-manifest), planted blobs/<alg>/*.tmp files and unreferenced blobs, Close, re-open "
-         "with a fresh client - over an imggen graph (nested indexes, shared layers, schema1, OCI artifact manifests with blobs[], blob-typed index entries, inline "
-         "data, foreign layers, bodies without mediaType) extended with sibling images sharing blobs and referrers (image / artifact / index with subject, referrers "
-         "of referrers, subjects stored nowhere); target pre-state absent / empty / raw layout of the graph (complete or partial, tagged only or every manifest "
-         "listed); system = RegClient (GC on) | bare ocidir scheme (GC on) | ocidir.New(WithGC(false)). Every history ends with a push of an unreferenced blob and "
-         "a Close. Part B (job conc): one evaluation = one schedule of 2-4 goroutines on one client running 2-5 ImageCopy calls of nodes of one graph (each from its "
-         "own source repository into its own tag of ONE layout, sparse / referrers / digest-tags / faults that fail one copy while others run) interleaved with "
-         "Close(target) steps, Close(target) from inside every k-th / chosen source requests, per-request latency plan, start pauses, GOMAXPROCS. "
-         "Non-trivial = (A) some Close with a collection due found unreachable files beside a non-empty reachable set; (B) >= 2 copies overlapped and >= 1 Close "
-         "ran from inside a copy. Distinct by the whole case.",
+         "registry, another layout or the layout itself (re-tag); by tag / digest / as child; sparse via ImageWithPlatforms; with referrers / digest-tags / "
+         "force-recursive / include-external; source faults that make the copy fail midway or recover; Close(target) called from inside every k-th source request / "
+         "progress callback of the running copy), hand-made pushes of a node's closure (complete, without blobs, without children; tagged / by digest / as child), "
+         "single manifest / blob puts, tag delete (plain tags and the referrers fallback tag), manifest delete (plain, check-referrers, with-manifest), planted "
+         "blobs/<alg>/*.tmp files and unreferenced blobs, Close, re-open with a fresh client - over an imggen graph (nested indexes, shared layers, schema1, OCI "
+         "artifact manifests with blobs[], blob-typed index entries, inline data, foreign layers, bodies without mediaType) extended with sibling images sharing "
+         "blobs and referrers (image / artifact / index with subject and own children, referrers of referrers, subjects stored nowhere), some addressed by sha512; "
+         "target pre-state absent / empty / raw layout of the graph (complete or partial, tagged only or every manifest listed); system = RegClient (GC on) | bare "
+         "ocidir scheme (GC on) | ocidir.New(WithGC(false)). Every history ends with a push of an unreferenced blob and a Close. Part B (job conc): one evaluation = "
+         "one schedule of 2-4 goroutines on one client running 2-5 ImageCopy calls of nodes of one graph (each from its own source repository into its own tag of "
+         "ONE layout; sparse / referrers / digest-tags / source faults that fail one copy while others run) interleaved with Close(target) steps, Close(target) "
+         "from inside every k-th / chosen source requests and progress callbacks of running copies, per-request latency plan, start pauses, GOMAXPROCS. "
+         "Non-trivial = (A) some Close with a collection due follows a delete / overwrite that made previously reachable files unreachable while other content "
+         "stays reachable; (B) >= 2 copies overlapped and >= 1 Close ran from inside a copy. Distinct by the whole case.",
     jobs=[REPLAY,
           rapid("prop", "TestVerifProp", 24000, 360000, sq=12, st=16, shrinktime="15s"),
           rapid("conc", "TestVerifConc", 2400, 36000, sq=4, st=16, shrinktime="20s",
@@ -23,22 +24,25 @@ CHECK = dict(
     replay_race=False,
     technique="model-based property testing (rapid): generated histories / schedules interpreted against the real client on real layout directories fed from an "
               "in-process model registry; oracle = independent reachability walk (audit) over the raw index.json compared with raw directory snapshots around "
-              "every Close; closes injected at request positions inside running copies (owned schedule points), latency plans, GOMAXPROCS and -race (thorough) "
-              "for the free-running part",
+              "every Close; closes injected at request / callback positions inside running copies (owned schedule points), latency plans, GOMAXPROCS and -race "
+              "(thorough) for the free-running part",
     level_text="Generated-history and generated-schedule search. Around EVERY Close: (1) every digest the raw index.json reaches (entries -> manifests -> nested "
                "manifests at any depth -> config / layers / artifact blobs[] / schema1 fsLayers / blob-typed entries; referrers through their tagged fallback index) "
                "that was present and intact before is present and byte-identical after; index.json and oci-layout are untouched; (2) when the harness knows a "
                "collection was due (a write through this client succeeded since the last collection, no copy in flight, Close returned nil) the files under blobs/ "
-               "are exactly that set (unreachable content and *.tmp gone); (3) with GC disabled nothing changes at all. A Close issued from inside a source "
-               "request of a running ImageCopy (the copy provably is in progress) removes nothing; no file seen at one request of a copy is gone at a later "
-               "request of the same copy; everything below the tag of a copy that returned nil - at return and per the source closure - is still there after all "
-               "goroutines finished and a final due Close, which also must have collected (a leaked GC lock shows here). Interleavings of the free-running "
-               "goroutines are perturbed, not enumerated.",
-    level_note="Trusted: regmodel, imggen's serialiser, the audit walker (R). Not asserted: completeness of a copy (C03/C04), the order of index entries (C06), "
-               "root-level index.json.*.tmp / oci-layout.*.tmp files, stray non-temporary files with non-digest names under blobs/, objects only named by a "
-               "`subject` field (the statement does not call them reachable), collection when the harness cannot know it was due (e.g. a failed copy that only "
-               "left a temp file), closure digests of a successful concurrent copy that were never observed in the layout (copy completeness), behaviour of "
-               "failing copies that use referrers / digest-tags options (they may return while child goroutines still run; not generated together with faults).",
+               "are exactly that set (unreachable content and *.tmp gone); (3) with GC disabled nothing changes at all. A Close issued from inside a source request "
+               "or progress callback of a running ImageCopy (the copy provably is in progress) removes nothing; no file seen at one instant of a copy is gone at a "
+               "later instant of the same copy; what lies below the tag of a copy that returned nil - right after it wrote the tag and when it returned - is still "
+               "there after all goroutines finished and a final due Close, which also must have collected (a GC lock that a failed copy did not release, or one it "
+               "released twice, shows here). Interleavings of the free-running goroutines are perturbed, not enumerated.",
+    level_note="Trusted: regmodel, imggen's serialiser, the audit walker (R). Not asserted: completeness of a copy (C03/C04), the order / uniqueness of index entries "
+               "(C06), root-level index.json.*.tmp / oci-layout.*.tmp files, stray non-temporary files with non-digest names under blobs/, objects only named by a "
+               "`subject` field (the statement does not call them reachable), collection when the harness cannot know it was due (e.g. a failed copy that only left "
+               "a temp file), a Close error on a layout that has no index.json yet (only blobs were pushed). Behind the known finding "
+               "gc-ran-while-failed-copy-still-writing (a failed copy with referrers / digest-tags may leave goroutines behind that keep writing) the completeness "
+               "clause (2) is not judged for the rest of that history / schedule (counted as *-possible-stray-writers); such failing copies are kept rare in the "
+               "generator. Index referrers that list their own subject make ImageCopy with referrers wait on itself forever (liveness, not this property) and are "
+               "not generated; persistent body truncation is not generated (C01 known finding).",
     assumptions=["the source content is spec-conformant and complete", "one client per layout at a time (re-open = the old client is dropped)",
                  "all references to the layout use the same path string (the dirty flag is keyed by it)"],
 )
